@@ -235,6 +235,20 @@ class Interp:
             raise Unsupported(f"exception {cls.__name__} inside pure expression")
         raise RaiseEx(self.make_exc(cls, *args))
 
+    def require(self, cond, cls, *args):
+        """raise point: the exception is raised on the paths where `cond` is false (no-op in pure mode,
+        where partial operations are unspecified rather than raising)"""
+        if self.ctx.pure:
+            return
+        if not self.ctx.branch(cond):
+            self.raise_exc(cls, *args)
+
+    def require_native(self, cond, mk):
+        if self.ctx.pure:
+            return
+        if not self.ctx.branch(cond):
+            self.raise_native(mk())
+
     def opaque_str(self, base="str"):
         return SStr(self.ctx.fresh(base, ISEQ))
 
